@@ -23,8 +23,10 @@ Record sigdesc := mkSig {
 
 Inductive token (C : Type) :=
 | TEmpty                      (* the empty string *)
-| TBadShape                   (* not three segments, or middle segment not base64url *)
-| TBadJson                    (* middle segment decodes, json.Unmarshal fails *)
+| TBadShape                   (* ParseToken -> ErrParse: not three segments, middle segment not
+                                 base64url, or payload not a JSON object (first non-blank byte
+                                 is not an opening brace: null, array, scalar, empty) *)
+| TBadJson                    (* payload starts like an object but json.Unmarshal fails: raw error *)
 | TJws (d : sigdesc) (c : C). (* compact JWS whose payload decodes to c *)
 Arguments TEmpty {C}.
 Arguments TBadShape {C}.
